@@ -12,6 +12,7 @@ import (
 	"encoding/json"
 	"fmt"
 	"net"
+	"runtime/debug"
 	"strings"
 	"testing"
 
@@ -118,6 +119,8 @@ type c09Ctx struct {
 	qs    []c09Query
 	his   []HostInfo
 	nviol map[string]int
+
+	maxDepth int64
 }
 
 func (c *c09Ctx) violate(p *evidence.Part, clause string, rp *c09Replay) bool {
@@ -298,6 +301,11 @@ func (c *c09Ctx) bfsList(p *evidence.Part, list []int, size, depth int) bool {
 			return &c09Sys{rules: rules, impl: impl, size: size, probes: probes, want: want, fresh: fresh, keyProbe: keyProbe}
 		},
 	}, p, c.env)
+	// xstate adds its depth to the counter on every call; keep it a maximum
+	if int64(res.Depth) > c.maxDepth {
+		c.maxDepth = int64(res.Depth)
+	}
+	p.Counters["max_depth"] = c.maxDepth
 	p.Count("rule_lists", 1)
 	h := uint64(len(list))
 	for _, r := range list {
@@ -404,6 +412,7 @@ func c09Alphabet() map[string]any {
 }
 
 func c09Enumerate(sh *evidence.Shard) {
+	debug.SetGCPercent(800) // many short-lived allocations per lookup; heap stays small
 	env := sh.Env()
 	qs := c09Queries()
 	c := &c09Ctx{sh: sh, env: env, tbl: c09NewTable(qs), qs: qs, nviol: map[string]int{}}
@@ -439,7 +448,7 @@ func c09Enumerate(sh *evidence.Shard) {
 	// Part 2: cache BFS
 	p2 := sh.Part("cache-bfs", "xstate")
 	p2.Alphabet = map[string]any{"probes": fmt.Sprint(c09Probes()), "cache_size": 2,
-		"rule_lists": map[bool]string{false: "length 1..2 over (atom x protoPort), labelled (A,-),(B,9.9.9.9) and (B,9.9.9.9),(A,-)", true: "length 0..2 over the full rule alphabet"}[th]}
+		"rule_lists": map[bool]string{false: "length 1..2 over (atom x protoPort), labelled (A,-),(B,9.9.9.9) and (B,9.9.9.9),(A,-)", true: "length 0..2 over the full rule alphabet; length 3 over (atom x protoPort) in one labelling"}[th]}
 	p2.Bounds = map[string]any{"depth": 4, "state": "LRU keys oldest..newest (private fields); cached values compared across histories"}
 	bfs := func(idx int64, list []int) bool {
 		if !env.Mine(idx) {
@@ -455,6 +464,20 @@ func c09Enumerate(sh *evidence.Shard) {
 		c09Lists2(2, bfs)
 	} else {
 		c09ListsReduced2(bfs)
+	}
+	if th && p2.Exhaustive {
+		// length 3: every (atom, protoPort) triple under the first labelling
+		p2.Note("thorough: additionally every rule list of 3 (atom, protoPort) pairs labelled (A,-),(B,-),(A,9.9.9.9)")
+		c09Lists3(func(idx int64, list []int) bool {
+			if idx%4 != 0 || !env.Mine(idx/4) {
+				return true
+			}
+			if (idx/4)&15 == 0 && expired(p2, "cache BFS (length 3)", idx/4) {
+				return false
+			}
+			ok := c.bfsList(p2, list, 2, 4)
+			return ok && p2.Exhaustive
+		})
 	}
 
 	// Part 3: production cache size, directed
